@@ -389,23 +389,22 @@ func (ei *resourceInformer) handleWatchEvent(object interface{}, eventType kemty
 			Objects:     []kemtypes.ObjectAndFilterResult{*objFilterRes},
 		}
 
-		// fix race with enableKubeEventCb.
-		eventCbEnabled := false
+		// The decision and the buffering are one critical section: if the callback were enabled in
+		// between, the event would be appended after the buffer has been replayed and never delivered.
 		ei.eventBufLock.Lock()
-		eventCbEnabled = ei.eventCbEnabled
-		ei.eventBufLock.Unlock()
-
-		if eventCbEnabled {
-			// Pass event info to callback.
-			ei.putEvent(kubeEvent)
-		} else {
-			ei.eventBufLock.Lock()
+		eventCbEnabled := ei.eventCbEnabled
+		if !eventCbEnabled {
 			// Save event in buffer until the callback is enabled.
 			if ei.eventBuf == nil {
 				ei.eventBuf = make([]kemtypes.KubeEvent, 0)
 			}
 			ei.eventBuf = append(ei.eventBuf, kubeEvent)
-			ei.eventBufLock.Unlock()
+		}
+		ei.eventBufLock.Unlock()
+
+		if eventCbEnabled {
+			// Pass event info to callback.
+			ei.putEvent(kubeEvent)
 		}
 	}
 }
